@@ -54,6 +54,7 @@ sequences that run first:
    dirreplace+edit (NoSuchFile variant and the silent variant with a spurious old-path file);
  * harmless: finish_deletions rewritten with a pop() loop - stays clean.
 """
+import fnmatch
 import io
 import os
 import random as _random
@@ -67,6 +68,8 @@ THEOREMS = [
     "nested_rename_witness", "nested_rename_second_witness", "children_first_fixes_witnesses",
     "reach_core", "rename_into_new_dir_witness", "symlink_families_witness", "renamed_as_file_witness",
     "kind_change_below_renamed_dir_witness", "deferred_deletion_witnesses", "full_upload_keeps_stale_witness", "ignored_rename_boundary_witness", "ignored_never_addressed",
+    "full_upload_onto_empty_reaches_tree", "incremental_upload_reaches_tree_partial", "incremental_upload_frame",
+    "upload_sequence_reaches_tree_partial", "special_file_removed_witness",
 ]
 RULE = ("case = one upload: (remote listing before, tree delta the uploader computes, new tree, ignore list, mode "
         "incremental | full | overwrite-jump); sequences of 4-7 commits of 1-3 random edits over 5 names; "
@@ -84,16 +87,35 @@ FAMILIES = {
     "renamed-file-mode-change-lost": "a file renamed and chmod-ed in one revision (same text) keeps its old executable bit on the remote",
     "rename-across-ignore-boundary-nosuchfile": "a rename with exactly one side ignored addresses a remote path that was never uploaded: NoSuchFile",
     "rename-across-ignore-boundary-moves-ignored-content": "a directory renamed from an ignored to a non-ignored path takes the ignored remote content below it along: the remote gains paths the tree does not have",
-    "kind-change-below-renamed-directory-nosuchfile": "an entry changes kind while an ancestor directory is renamed in the same delta: the old object is deleted at its OLD path after the renames are finished: NoSuchFile",
     "deferred-deletion-below-renamed-directory-nosuchfile": "a directory is removed below a directory that is renamed in the same delta; its deferred rmdir runs at the OLD path after the renames are finished: NoSuchFile",
     "rename-onto-deleted-directory-directorynotempty": "a directory takes the path of a directory removed in the same delta; the deferred rmdir of the removed one then hits the new occupant: DirectoryNotEmpty",
     "rename-onto-deleted-directory-readerror": "an entry takes the path of a directory removed in the same delta; the deferred rmdir runs after finish_renames: ReadError",
     "delete-directory-with-ignored-content-directorynotempty": "a removed directory still holds ignored remote content: the deferred rmdir raises DirectoryNotEmpty",
     "full-upload-keeps-stale-paths": "upload --full onto an existing remote never deletes paths that left the tree",
+    "symlink-path-not-url-escaped-invalidurl": "upload_symlink hands link and target path to Transport.symlink without urlutils.escape: a symlink whose path or target path has a non-ASCII character or a percent sign cannot be uploaded: InvalidURL",
+    "special-file-removed-or-renamed-after-full-upload-nosuchfile": "`.bzrignore` / `.bzrignore-upload` is removed, renamed or changes kind in a revision uploaded incrementally after a full upload, which never copied it: NoSuchFile",
 }
 
 NAMES = ["a", "b", "d", "e", "f"]
+# names that urlutils.escape must keep intact: a space, a percent escape (a dropped escape() turns it into a
+# slash on the transport), a non-ASCII letter.  No name is a prefix of another, so ordering paths as strings
+# (finish_renames) and ordering them component-wise (the model) agree.  The model sees order-preserving tokens.
+ODD = ["g h", "i%2Fj", "\u00fc"]
+TOK = {"g h": "gSh", "i%2Fj": "iPj", "\u00fc": "zu"}
+ALLNAMES = NAMES + ODD
+# ignore patterns: plain names, or a basename glob (expanded over the namespace by fnmatch in the harness; the
+# model and the oracle see the expansion, the real Globster sees the pattern)
+GLOBS = ["[bd]", "g*", "i%*", "?"]
 TARGETS = ["t1", "t2"]
+SPECIAL = (".bzrignore", ".bzrignore-upload")
+
+
+def pick_name(rng):
+    return rng.choice(NAMES) if rng.random() < 0.8 else rng.choice(ODD)
+
+
+def tokp(p):
+    return "/".join(TOK.get(c, c) for c in p.split("/"))
 MARKER = ".bzr-upload.revid"
 IGNFILE = ".bzrignore-upload"
 
@@ -135,6 +157,7 @@ def tree_entries(t):
 
 
 def enc_node(p, v):
+    p = tokp(p)
     if v[0] == "f":
         return "%s|f|%s|%s" % (p, v[1].hex() or "-", "T" if v[2] else "F")
     if v[0] == "l":
@@ -158,11 +181,11 @@ K = {"file": "f", "directory": "d", "symlink": "l"}
 
 
 def enc_delta(d):
-    rm = ",".join("%s:%s" % (c.path[0], K[c.kind[0]]) for c in d.removed) or "-"
-    rn = ",".join("%s:%s:%s" % (c.path[0], c.path[1], "T" if c.changed_content else "F") for c in d.renamed) or "-"
-    kc = ",".join("%s:%s:%s:%s" % (c.path[0], c.path[1], K[c.kind[0]], K[c.kind[1]]) for c in d.kind_changed) or "-"
-    ad = ",".join(c.path[1] for c in list(d.added) + list(d.copied)) or "-"
-    md = ",".join(c.path[1] for c in d.modified) or "-"
+    rm = ",".join("%s:%s" % (tokp(c.path[0]), K[c.kind[0]]) for c in d.removed) or "-"
+    rn = ",".join("%s:%s:%s" % (tokp(c.path[0]), tokp(c.path[1]), "T" if c.changed_content else "F") for c in d.renamed) or "-"
+    kc = ",".join("%s:%s:%s:%s" % (tokp(c.path[0]), tokp(c.path[1]), K[c.kind[0]], K[c.kind[1]]) for c in d.kind_changed) or "-"
+    ad = ",".join(tokp(c.path[1]) for c in list(d.added) + list(d.copied)) or "-"
+    md = ",".join(tokp(c.path[1]) for c in d.modified) or "-"
     return "&".join([rm, rn, kc, ad, md])
 
 
@@ -209,14 +232,16 @@ def _isfile(root, p):
 def mutate(rng, wt):
     root = wt.basedir
     with wt.lock_read():
-        paths = sorted(p for p in wt.all_versioned_paths() if p and p != IGNFILE)
+        paths = sorted(p for p in wt.all_versioned_paths() if p and p not in SPECIAL)
+        has_bzrignore = wt.is_versioned(".bzrignore")
     dirs = [""] + [p for p in paths if _isdir(root, p)]
     op = rng.choice(["add", "add", "rm", "mv", "mv", "swap", "mod", "kind", "chmod", "nested", "nested2",
-                     "into-new", "retarget", "chain", "dir+edit", "dir+edit", "dirswap+edit", "dirreplace+edit"])
+                     "into-new", "retarget", "chain", "dir+edit", "dir+edit", "dirswap+edit", "dirreplace+edit",
+                     "bzrignore"])
 
     def newpath():
         d = rng.choice(dirs)
-        return (d + "/" if d else "") + rng.choice(NAMES)
+        return (d + "/" if d else "") + pick_name(rng)
 
     def free(p):
         return not os.path.lexists(os.path.join(root, p))
@@ -257,8 +282,44 @@ def mutate(rng, wt):
             wt.rename_one(y, x)
             wt.rename_one("swaptmp", y)
             return ("swap", x, y)
+        if op == "bzrignore":
+            # `.bzrignore` is one of the two files a full upload skips and an incremental upload copies
+            full = os.path.join(root, ".bzrignore")
+            if not has_bzrignore:
+                if os.path.lexists(full):
+                    return None
+                with open(full, "w") as f:
+                    f.write("*.o\n")
+                wt.smart_add([full])
+                return ("bzrignore", "add")
+            r = rng.random()
+            if r < 0.4:
+                with open(full, "a") as f:
+                    f.write("*.x%d\n" % rng.randint(0, 99))
+                return ("bzrignore", "edit")
+            if r < 0.7:
+                wt.remove([".bzrignore"], keep_files=False, force=True)
+                return ("bzrignore", "rm")
+            d = newpath()
+            if not free(d):
+                return None
+            wt.rename_one(".bzrignore", d)
+            return ("bzrignore", "mv", d)
         if op == "chain":
             tops = [p for p in paths if "/" not in p]
+            if len(tops) < 3:
+                # make the three top-level entries a chain needs
+                made = []
+                for n in NAMES:
+                    if len(tops) + len(made) >= 3:
+                        break
+                    if free(n):
+                        with open(os.path.join(root, n), "w") as f:
+                            f.write("c%d\n" % rng.randint(0, 99))
+                        made.append(n)
+                if made:
+                    wt.smart_add([os.path.join(root, n) for n in made])
+                    return ("add-tops", ",".join(made))
             if len(tops) >= 3:
                 x, y, z = rng.sample(tops, 3)       # x -> y -> z -> x
                 wt.rename_one(z, "chaintmp")
@@ -321,7 +382,7 @@ def mutate(rng, wt):
                 if nd == d or nd.startswith(d + "/") or not free(nd):
                     return None
                 if op == "nested":          # d -> nd and d/kid -> nd/other
-                    nk = d + "/" + rng.choice(NAMES)
+                    nk = d + "/" + pick_name(rng)
                     if not free(nk):
                         return None
                     wt.rename_one(kid, nk)
@@ -343,9 +404,9 @@ def mutate(rng, wt):
                 if not free(d):
                     return None
                 os.mkdir(os.path.join(root, d))
-                sub = d + "/" + rng.choice(NAMES)
+                sub = d + "/" + pick_name(rng)
                 os.mkdir(os.path.join(root, sub))
-                for q in (d + "/" + rng.choice([n for n in NAMES if d + "/" + n != sub]), sub + "/" + rng.choice(NAMES)):
+                for q in (d + "/" + rng.choice([n for n in ALLNAMES if d + "/" + n != sub]), sub + "/" + pick_name(rng)):
                     with open(os.path.join(root, q), "w") as f:
                         f.write("c%d\n" % rng.randint(0, 99))
                 wt.smart_add([os.path.join(root, d)])
@@ -409,7 +470,16 @@ def ignore_names(tree):
             text = tree.get_file_text(IGNFILE)
     except NoSuchFile:
         return []
-    return [l.strip() for l in text.decode().splitlines() if l.strip() and not l.startswith("#")]
+    out = []
+    for l in text.decode().splitlines():
+        l = l.strip()
+        if not l or l.startswith("#"):
+            continue
+        if any(ch in l for ch in "*?["):
+            out.extend(n for n in ALLNAMES if fnmatch.fnmatchcase(n, l) and n not in out)
+        elif l not in out:
+            out.append(l)
+    return out
 
 
 def is_ign(names, p):
@@ -417,6 +487,21 @@ def is_ign(names, p):
 
 
 _VARIANT = [None]
+_ESCAPES = [True]
+
+
+def bad_links(ents):
+    """the symlink entries `upload_symlink` cannot create because it does not escape its paths (probed): the
+    link path or the target path (normpath(dirname(link)/target)) has a non-ASCII character or a percent sign"""
+    if _ESCAPES[0]:
+        return []
+    out = []
+    for p, v in ents:
+        if v[0] == "l":
+            tp = os.path.normpath(os.path.join(os.path.dirname(p), v[1]))
+            if any(ord(ch) > 127 or ch == "%" for ch in p + tp):
+                out.append(p)
+    return out
 
 
 def probe_variant(ctx):
@@ -467,7 +552,42 @@ def probe_variant(ctx):
         _VARIANT[0] += "K"
     except Exception:   # noqa: BLE001
         pass
-    ctx.extra["kind_change_deletes_at"] = "new path" if _VARIANT[0].endswith("K") else "old path (as found)"
+    # fourth probe: a symlink whose name needs URL escaping
+    wt2 = env.make_tree("2a")
+    os.symlink("t1", os.path.join(wt2.basedir, "\u00fc"))
+    wt2.smart_add([wt2.basedir])
+    r5 = wt2.commit("1")
+    remote3 = env.fresh_dir("c43p")
+    try:
+        BzrUploader(wt2.branch, T.get_transport(remote3), io.StringIO(), wt2.branch.repository.revision_tree(r5), r5,
+                    quiet=True).upload_full_tree()
+        _ESCAPES[0] = os.path.islink(os.path.join(remote3, "\u00fc"))
+    except Exception:   # noqa: BLE001
+        _ESCAPES[0] = False
+    shutil.rmtree(wt2.basedir, ignore_errors=True)
+    shutil.rmtree(remote3, ignore_errors=True)
+    ctx.extra["symlink_paths_url_escaped"] = bool(_ESCAPES[0])
+    # fifth probe: `.bzrignore` removed after a full upload (which never copied it)
+    wt3 = env.make_tree("2a")
+    for n in (".bzrignore", "a"):
+        with open(os.path.join(wt3.basedir, n), "w") as f:
+            f.write("x\n")
+    wt3.smart_add([wt3.basedir])
+    r6 = wt3.commit("1")
+    wt3.remove([".bzrignore"], keep_files=False, force=True)
+    r7 = wt3.commit("2")
+    remote4 = env.fresh_dir("c43p")
+    t4 = T.get_transport(remote4)
+    try:
+        BzrUploader(wt3.branch, t4, io.StringIO(), wt3.branch.repository.revision_tree(r6), r6, quiet=True).upload_full_tree()
+        BzrUploader(wt3.branch, t4, io.StringIO(), wt3.branch.repository.revision_tree(r7), r7, quiet=True).upload_tree()
+        _VARIANT[0] += "T"
+    except Exception:   # noqa: BLE001
+        pass
+    ctx.extra["missing_special_file_delete"] = "tolerated" if _VARIANT[0].endswith("T") else "NoSuchFile (as found)"
+    shutil.rmtree(wt3.basedir, ignore_errors=True)
+    shutil.rmtree(remote4, ignore_errors=True)
+    ctx.extra["kind_change_deletes_at"] = "new path" if "K" in _VARIANT[0] else "old path (as found)"
     shutil.rmtree(remote2, ignore_errors=True)
     ctx.extra["symlink_upload"] = "robust" if "S" in _VARIANT[0] else "as-found"
     shutil.rmtree(r, ignore_errors=True)
@@ -491,6 +611,11 @@ def classify(mode, err, delta, ents, before, names, got, exp, from_kinds):
 
     ren = [(c.path[0], c.path[1]) for c in delta.renamed
            if not (is_ign(names, c.path[0]) and is_ign(names, c.path[1]))] if delta is not None else []
+    if err == "InvalidURL":
+        created = set(tree) if mode == "full" else {c.path[1] for c in list(delta.added) + list(delta.copied)
+                                                    + list(delta.modified) + list(delta.kind_changed)}
+        if any(p in created and not is_ign(names, p) for p in bad_links(ents)):
+            return "symlink-path-not-url-escaped-invalidurl"
     if mode != "full":
         if err == "NoSuchFile":
             added = {c.path[1] for c in list(delta.added) + list(delta.copied)}
@@ -501,8 +626,9 @@ def classify(mode, err, delta, ents, before, names, got, exp, from_kinds):
                     if parent in added or parent in kc_dirs:
                         return "rename-into-directory-not-yet-created"
                     parent = os.path.dirname(parent)
-        if err == "NoSuchFile" and any(c.path[0] != c.path[1] and not is_ign(names, c.path[1]) for c in delta.kind_changed):
-            return "kind-change-below-renamed-directory-nosuchfile"
+        if err == "NoSuchFile" and any(c.path[0] in SPECIAL and c.path[0] not in before and not is_ign(names, c.path[0])
+                                        for c in list(delta.removed) + list(delta.renamed) + list(delta.kind_changed)):
+            return "special-file-removed-or-renamed-after-full-upload-nosuchfile"
         removed_dirs = {c.path[0] for c in delta.removed if c.kind[0] == "directory" and not is_ign(names, c.path[0])}
         if err == "ReadError" and any(n in removed_dirs for _, n in ren):
             return "rename-onto-deleted-directory-readerror"
@@ -541,6 +667,15 @@ _FAMILY_SEEN = {}
 
 
 _PENDING = []      # (line index, case, what, family): emitted by run() once the model has answered
+_HYP = []          # (case, driver line, expected reply): hypotheses of the theorems checked on the real data
+
+
+def rename_free(delta, names):
+    """the delta is in the domain of incremental_upload_reaches_tree_partial"""
+    if any(not (is_ign(names, c.path[0]) and is_ign(names, c.path[1])) for c in delta.renamed):
+        return False
+    return not any(c.path[0] in SPECIAL and not is_ign(names, c.path[0])
+                   for c in list(delta.removed) + list(delta.kind_changed))
 
 
 def _violation(ctx, case, what, family=None):
@@ -572,7 +707,8 @@ def one_upload(ctx, wt, remote, rid, mode, case):
         else:
             from_tree = repo.revision_tree(marker[1])
             delta = tree.changes_from(from_tree)
-            from_kinds = {p: v[0] for p, v in tree_entries(from_tree)}
+            from_ents = tree_entries(from_tree)
+            from_kinds = {p: v[0] for p, v in from_ents}
     case = dict(case, ignore=names, delta=enc_delta(delta) if delta is not None else None, before=canon_fs(before))
     rec = Recorder(T.get_transport(remote))
     up = BzrUploader(wt.branch, rec, io.StringIO(), tree, rid, quiet=True)
@@ -591,8 +727,8 @@ def one_upload(ctx, wt, remote, rid, mode, case):
             if getattr(delta, k):
                 ctx.count("delta:" + k)
     # ---- oracle --------------------------------------------------------
-    exp = {p: v for p, v in ents if p != IGNFILE and not is_ign(names, p)}
-    got = {p: v for p, v in after.items() if p != IGNFILE and not is_ign(names, p)}
+    exp = {p: v for p, v in ents if p not in SPECIAL and not is_ign(names, p)}
+    got = {p: v for p, v in after.items() if p not in SPECIAL and not is_ign(names, p)}
     fam = None
     ok = True
     pend = None
@@ -608,19 +744,33 @@ def one_upload(ctx, wt, remote, rid, mode, case):
         _violation(ctx, case, "the marker does not name the uploaded revision")
     ign_before = {p: v for p, v in before.items() if is_ign(names, p)}
     ign_after = {p: v for p, v in after.items() if is_ign(names, p)}
-    if err is None and ign_before != ign_after and eff_mode != "full" and delta is not None:
-        # a rename or removal of a non-ignored directory takes ignored children along: only report
+    if err is None and ign_before != ign_after:
+        # a rename or removal of a non-ignored directory takes ignored children along (incremental); a full
+        # upload clears a remote directory that stands where the tree has a file or symlink: only report
         # ignored paths whose non-ignored ancestors were all left alone
-        touched = {c.path[0] for c in list(delta.removed) + list(delta.renamed) + list(delta.kind_changed)}
-        touched |= {c.path[1] for c in delta.renamed}
+        if eff_mode != "full" and delta is not None:
+            touched = {c.path[0] for c in list(delta.removed) + list(delta.renamed) + list(delta.kind_changed)}
+            touched |= {c.path[1] for c in delta.renamed}
+        else:
+            touched = {p for p, v in exp.items() if before.get(p, ("?",))[0] == "d" and v[0] != "d"}
         bad = [p for p in set(ign_before) ^ set(ign_after) | {p for p in set(ign_before) & set(ign_after) if ign_before[p] != ign_after[p]}
                if not any(p == q or p.startswith(q + "/") for q in touched)]
         if bad:
             _violation(ctx, case, "ignored remote paths were modified: %s" % sorted(bad)[:3])
+        ctx.count("oracle:ignored-paths-compared:" + ("full" if eff_mode == "full" else "inc"))
     # ---- model line ------------------------------------------------------
     line = "up %s %s %s %s %s %s" % (
-        "full" if eff_mode == "full" else "inc", _VARIANT[0], ",".join(names) or "-", enc_fs(before), enc_listing(ents),
-        enc_delta(delta) if delta is not None else "-&-&-&-&-")
+        "full" if eff_mode == "full" else "inc", _VARIANT[0], ",".join(tokp(n) for n in names) or "-", enc_fs(before),
+        enc_listing(ents), enc_delta(delta) if delta is not None else "-&-&-&-&-")
+    line += " " + (",".join(tokp(p) for p in bad_links(ents)) or "-")
+    # the hypotheses of the upload theorems, evaluated by the model on the real data: every revision tree is
+    # `treeWF`; every real delta in which nothing is renamed (outside ignored paths) and the two special files
+    # are neither removed nor changed in kind is `deltaOK`
+    _HYP.append((dict(case, hypothesis="treeWF"), "wf %s" % enc_listing(ents), "T"))
+    if delta is not None and rename_free(delta, names) and not bad_links(ents):
+        ctx.count("hypothesis:deltaOK-on-real-delta")
+        _HYP.append((dict(case, hypothesis="deltaOK"), "dok %s %s %s %s" % (
+            ",".join(tokp(n) for n in names) or "-", enc_listing(from_ents), enc_listing(ents), enc_delta(delta)), "T"))
     impl = "%s %s" % (err or "~", canon_fs(after))
     nontrivial = delta is not None and (len(delta.renamed) >= 1 or sum(len(getattr(delta, k)) for k in
                                         ("removed", "renamed", "kind_changed", "added", "modified")) >= 2)
@@ -679,6 +829,26 @@ SCRIPTS = {
     "dir-onto-deleted-dir": [[("mkdir", "f"), ("mkdir", "f/a"), ("file", "f/a/a", "1"), ("mkdir", "f/d"), ("file", "f/d/b", "2")],
                              [("mv", "f/a/a", "f/e"), ("rm", "f/a"), ("mv", "f/d", "f/a")]],
     "rename-modified": [[("file", "a", "1"), ("mkdir", "d")], [("file", "a", "11"), ("mv", "a", "d/b")]],
+    # a rename chain that is no cycle: a -> b -> d -> e
+    "chain-3": [[("file", "a", "1"), ("file", "b", "2"), ("mkdir", "d"), ("file", "d/x", "3")],
+                [("mv", "d", "e"), ("mv", "b", "d"), ("mv", "a", "b")]],
+    # names that need urlutils.escape: a space, a percent escape, a non-ASCII letter
+    "odd-names": [[("mkdir", "g h"), ("file", "g h/i%2Fj", "1"), ("file", "\u00fc", "2"), ("ln", "g h/a", "t1")],
+                  [("mv", "g h/i%2Fj", "i%2Fj"), ("file", "\u00fc", "22"), ("chmod", "\u00fc"), ("mkdir", "g h/\u00fc")],
+                  [("mv", "g h", "b"), ("rm", "\u00fc"), ("file", "i%2Fj", "11"), ("file", "b/\u00fc/g h", "3")]],
+    # ... and symlinks at such names (`upload_symlink` is the one operation that does not escape)
+    "odd-symlink-added": [[("file", "a", "1")], [("ln", "\u00fc", "t1"), ("file", "a", "11")]],
+    "odd-symlink-full": [[("mkdir", "d"), ("ln", "d/i%2Fj", "t1"), ("file", "f", "1")]],
+    # ignore patterns with wildcards (the real Globster sees the patterns, model and oracle their expansion)
+    "glob-ignore": [[("file", IGNFILE, "g*\n[bd]"), ("file", "g h", "1"), ("file", "a", "2"), ("file", "b", "3"),
+                     ("mkdir", "e"), ("file", "e/d", "4"), ("file", "e/f", "5")],
+                    [("file", "g h", "11"), ("file", "a", "22"), ("file", "e/d", "44"), ("file", "f", "6")],
+                    [("rm", "e/f"), ("rm", "b"), ("file", "e/g h", "7")]],
+    # the two files a full upload skips: edited (fine), then removed / renamed after the full upload
+    "ignore-file-edited-then-removed": [[("file", IGNFILE, "zz"), ("file", "a", "1")], [("file", IGNFILE, "zz\nyy")],
+                                        [("rm", IGNFILE)]],
+    "ignore-file-removed": [[("file", IGNFILE, "zz"), ("file", "a", "1")], [("rm", IGNFILE), ("file", "a", "11")]],
+    "bzrignore-renamed": [[("file", ".bzrignore", "*.o"), ("file", "a", "1")], [("mv", ".bzrignore", "b")]],
 }
 
 
@@ -815,6 +985,7 @@ def run(ctx, nseq=None):
     os.umask(0o022)
     _FAMILY_SEEN.clear()
     del _PENDING[:]
+    del _HYP[:]
     probe_variant(ctx)
     nseq = nseq or ctx.pick(40, 600)
     cases, lines, impls = [], [], []
@@ -830,6 +1001,9 @@ def run(ctx, nseq=None):
             impls.append(impl)
     if lines:
         ctx.diff(cases, lines, impls)
+    if _HYP:
+        ctx.diff([h[0] for h in _HYP], [h[1] for h in _HYP], [h[2] for h in _HYP])
+        del _HYP[:]
     flush_pending(ctx)
 
 
